@@ -4,7 +4,7 @@ D1 threading of the persistent limits member to every selection primitive (inter
    parameter flow over resolved call sites), D2 '-1 means unrestricted' guard on every element
    read, D3 lock-step iterators, D5 saturation exit of grow-until-min_growth loops."""
 from tsg.facts import DB, strip, txt, callee, call_args, call_object, walk, const_val, callee_node
-from tsg.flow import var_of, base_var, cond_edges_dominating, is_reachable, element_writes
+from tsg.flow import emptiness, var_of, base_var, cond_edges_dominating, is_reachable, element_writes
 from tsg.taint import ParamFlow, carrier
 from tsg.build import AnalysisBroken
 
@@ -118,10 +118,17 @@ def run(chk):
             store_sites += 1
             idx, asg = sources[k]
             pname = fn.params()[idx]["name"]
-            edges = [(txt(strip(c)), t) for c, t in cond_edges_dominating(fn, asg, skip_bailouts=True)]
+            raw_edges = list(cond_edges_dominating(fn, asg, skip_bailouts=True))
+            edges = [(txt(strip(c)), t) for c, t in raw_edges]
             is_make = fn.name.rsplit("::", 1)[-1].startswith("make")
-            nonempty = [e for e in edges if e in (("!%s.empty()" % pname, True), ("%s.empty()" % pname, False), ("%s != 0" % pname, True), ("%s != nullptr" % pname, True))]
-            other = [e for e in edges if e not in nonempty]
+            nonempty, other = [], []
+            for (c, t), e in zip(raw_edges, edges):
+                em = emptiness(c)
+                # the edge taken says 'the limits parameter is not empty / not null'
+                if em is not None and em[0] == pname and em[1] == (not t):
+                    nonempty.append(e)
+                else:
+                    other.append(e)
             if is_make:
                 ok = not edges
                 want = "unconditional store (make replaces the limits)"
@@ -211,15 +218,15 @@ def run(chk):
             targs = (callee_node(call) or {}).get("targs")
             if targs in ("true", "false") and is_reachable(fn, call):
                 edges = cond_edges_dominating(fn, call)
-                sel = [(txt(strip(c)), tr) for c, tr in edges if txt(strip(c)).endswith(".empty()") or txt(strip(c)).startswith("!") and txt(strip(c)).endswith(".empty()")]
+                sel = [(txt(strip(c)), tr) for c, tr in edges if emptiness(c) is not None]
                 a = args[sorted(pos)[0]] if sorted(pos)[0] < len(args) else None
                 an = txt(strip(a)) if a is not None else "?"
                 want_empty = (targs == "false")
                 ok = False
-                for s, tr in sel:
-                    if s == "%s.empty()" % an and tr == want_empty:
-                        ok = True
-                    if s == "!%s.empty()" % an and tr == (not want_empty):
+                for c, tr in edges:
+                    em = emptiness(c)
+                    # on the edge taken the limits are empty exactly when the <false> (unlimited) variant is selected
+                    if em is not None and em[0] == an and (em[1] == tr) == want_empty:
                         ok = True
                 chk.ob("C08-D1.variant", fn.key + fn.sig, "%s<%s>" % (t.name.rsplit("::", 1)[-1], targs), ok, fn.loc(call),
                        "selected under %s" % sel, "%s.empty() is %s" % (an, want_empty))
@@ -295,6 +302,9 @@ def run(chk):
                 d_ = fn_locals_by_did(fn)[cnd["did"]]
                 cnd = strip(d_["c"][0]) if d_.get("c") else None
             ct = txt(cnd).replace(" ", "") if cnd is not None else "?"
+            em_ = emptiness(cnd) if cnd is not None else None
+            if em_ is not None:
+                ct = ("%s.empty()" if em_[1] else "!%s.empty()") % em_[0]       # canonical spelling of an emptiness test
             lim_names = {txt(strip(r["c"][1] if r.get("k") == "CXXOperatorCallExpr" and r.get("op") == "[]" else r["c"][0])) for r in reads if r.get("k") in ("CXXOperatorCallExpr", "ArraySubscriptExpr") and r.get("op", "[]") == "[]"}
             lim_names |= {txt(strip(call_object(strip(it["c"][0])))) for it in iters.values()}
             unlimited_then = not rt
